@@ -126,6 +126,10 @@ pub fn zl(v: &[i64]) -> String {
     if v.is_empty() {
         return "(@nil Z)".into();
     }
+    if v.len() > 3000 && v.iter().all(|z| *z == v[0]) {
+        // very long constant vectors (u32-overflow cases): a literal would overflow coqc's parser stack
+        return format!("(repeat {}%Z (N.to_nat {}))", v[0], v.len());
+    }
     let s: Vec<String> = v.iter().map(|z| z.to_string()).collect();
     format!("([{}]%Z)", s.join("; "))
 }
